@@ -1,2 +1,3 @@
 import LdkModel.Driver.C15
-def main (args : List String) : IO UInt32 := Ldk.Driver.runMain [("c15cipher", Ldk.Driver.c15cipher), ("c15peer", Ldk.Driver.c15peer)] args
+import LdkModel.Driver.C15Write
+def main (args : List String) : IO UInt32 := Ldk.Driver.runMain [("c15cipher", Ldk.Driver.c15cipher), ("c15peer", Ldk.Driver.c15peer), ("c15write", Ldk.Driver.c15write)] args
